@@ -1,6 +1,7 @@
 (* C05 model of the lazy accessors of bam::RecordRef / bam::Record (record_ref.rs, record/cigar.rs,
    record/data.rs::get_raw_cigar, record/data/field/ files) WITH their panics: a Rust slice index
-   `&rest[a..b]` out of range and the `unreachable!()` of Cigar::iter are the result [None].
+   `&rest[a..b]` out of range and the `unreachable!()` of Cigar::iter are the result [None]
+   (the theorems show that neither happens on a validated body).
    The values are the [lz_] slices of Bam/Decode.v.  Definitions only. *)
 From Coq Require Import List NArith ZArith Bool.
 From NV Require Import Bam.Record Bam.Encode Bam.Decode.
@@ -57,10 +58,10 @@ Fixpoint chunk_ops (bs : bytes) : res (list (N * N)) :=
 Definition cigar_iter (buf : bytes) : option (res (list (N * N))) :=
   if lenN buf mod 4 =? 0 then Some (chunk_ops buf) else None.
 
-(* record/data.rs::get_raw_cigar: walk the raw data fields with the lazy field decoders
-   (record/data/field/{tag,ty,value,value/array}.rs); the first field with tag CG and type B,
-   of ANY subtype, yields its raw element bytes.  [None] = Ok(None) or Err (both make cigar()
-   fall back to the stored operations). *)
+(* record/data.rs::get_raw_cigar (as repaired in /repo 3808bd7): walk the raw data fields with the
+   lazy field decoders (record/data/field/{tag,ty,value,value/array}.rs); the first field with tag
+   CG and type B yields its raw element bytes if its subtype is I, and is an error otherwise.
+   [None] = Ok(None) or Err (both make cigar() fall back to the stored operations). *)
 Fixpoint raw_cigar (fuel : nat) (bs : bytes) : option bytes :=
   match fuel with
   | O => None
@@ -79,7 +80,9 @@ Fixpoint raw_cigar (fuel : nat) (bs : bytes) : option bytes :=
               | Some (cnt, r3) =>
                 match takeN (cnt * N.of_nat w) r3 with
                 | None => None
-                | Some (buf, r4) => if tag_eqb (t0, t1) CG then Some buf else raw_cigar f r4
+                | Some (buf, r4) =>
+                    if tag_eqb (t0, t1) CG then (if sub =? tyI then Some buf else None)
+                    else raw_cigar f r4
                 end
               end
             end
